@@ -114,6 +114,7 @@ type rpcState struct {
 	spec *RPC
 
 	reuseCli, reuseSrv *wrapperspb.BytesValue // RPC.ReuseMsg: the one message object each side receives into
+	hMDErr             error                  // the last error a header / trailer call of the handler returned
 
 	ctx    context.Context
 	cancel context.CancelFunc
@@ -2362,6 +2363,13 @@ func (w *World) opHandlerMD(ctx context.Context, ss grpc.ServerStream, op MDOp, 
 	if md != nil {
 		md["scribbled-after-the-call"] = []string{"1"}
 	}
+	if err != nil && rec.RPC >= 0 {
+		w.mu.Lock()
+		if rec.RPC < len(w.rpcs) {
+			w.rpcs[rec.RPC].hMDErr = err
+		}
+		w.mu.Unlock()
+	}
 	setErr(rec, err)
 }
 
@@ -2489,6 +2497,14 @@ func streamHandlerFor(shape string) grpc.StreamHandler {
 					retErr = scriptedStatus(sp)
 					if sp.HWaitCtx && retErr == nil {
 						retErr = status.FromContextError(ctx.Err()).Err()
+					}
+					if sp.HReturnMDErr {
+						// the handler passes on, as its own result, the error a header / trailer call gave it
+						w.mu.Lock()
+						if r.hMDErr != nil {
+							retErr = r.hMDErr
+						}
+						w.mu.Unlock()
 					}
 					setErr(rec, retErr)
 					w.aimCancel(r, sp.CancelAtReturnUs)
